@@ -208,6 +208,14 @@ func (ex *Exec) callFunc(fr *Frame, callee *ssa.Function, binds []Val, args []Va
 			ex.inline(fr, callee, binds, args, c, st, k)
 			return
 		}
+		if c == nil && fr.depth < 3 && vc.prog.pinnedFuncs != nil && !vc.prog.pinnedFuncs[name] && fnPkg(callee) == fnPkg(fr.fn) && len(callee.Blocks) <= 40 {
+			// a function of the same package that did not exist when the contracts were pinned, with a loop and no contract
+			// (typically a few statements extracted from its caller): executed in place, its loops cut without invariant
+			// (what they write is forgotten). Functions that existed then keep their treatment.
+			vc.note("call of %s at %s: helper added after the contracts were pinned, with a loop and no contract: inlined, its loops cut without invariant", name, ex.where())
+			ex.inline(fr, callee, binds, args, nil, st, k)
+			return
+		}
 		vc.note("call of %s at %s: callee has loops and no contract: havoc", name, ex.where())
 	} else if callee.Blocks != nil && vc.prog.inRepoFn(callee) {
 		vc.note("call of %s at %s: recursion or depth limit: havoc", name, ex.where())
@@ -875,6 +883,14 @@ func (ex *Exec) resolveModifies(c *FuncContract, env *Env) *WriteSet {
 				}
 			} else {
 				ws.heaps["H_"+s+"_"+m[i+1:]] = true
+			}
+		}
+	}
+	if !ws.all && c.HasMod {
+		for _, h := range vc.newFieldHeaps() {
+			if !ws.heaps[h] {
+				ws.heaps[h] = true
+				vc.note("field behind %s was added after the contracts were pinned: %s may write it (no contract speaks about it)", h, c.Name)
 			}
 		}
 	}
